@@ -49,11 +49,11 @@ type stateEv struct {
 	Ops     []string     `json:"ops"`
 	Faulted bool         `json:"faulted"`
 	Failed  bool         `json:"failed"` // the first reconciliation of the step returned an error
-	Core    bool         `json:"core"` // the cluster is within the vocabulary of spec/Controller.tla
+	Core    bool         `json:"core"`   // the cluster is within the vocabulary of spec/Controller.tla
 	Cluster any          `json:"cluster,omitempty"`
 	Routing *routing     `json:"routing,omitempty"` // frontends and backends of the incremental controller, for Routing!Route
-	Model   *model       `json:"model,omitempty"`  // routing tables read from the incremental controller's files
-	FModel  *model       `json:"fmodel,omitempty"` // same for the first fresh controller
+	Model   *model       `json:"model,omitempty"`   // routing tables read from the incremental controller's files
+	FModel  *model       `json:"fmodel,omitempty"`  // same for the first fresh controller
 }
 
 type backR struct {
